@@ -110,6 +110,11 @@ pub fn build(cfg: &Cfg) -> (Scenario, Vec<Box<dyn Peer>>) {
     for (k, t) in instants.iter().enumerate() {
         sc.actions.push((When::At(*t), Action::LoadContacts { node: 0, tag: format!("contacts{k}") }));
         sc.actions.push((When::At(*t), Action::ProbeTable { node: 0, from: prober(), tag: format!("dump{k}") }));
+        if !cfg.all_silent {
+            // a node that is itself in the table asks (target: its own id / some info-hash)
+            sc.actions.push((When::At(*t), Action::PeerCommand { peer: c_addr(0, cfg.v6), cmd: format!("find_node {}", n_addr(cfg.v6)) }));
+            sc.actions.push((When::At(*t), Action::PeerCommand { peer: c_addr(0, cfg.v6), cmd: format!("get_peers {}", n_addr(cfg.v6)) }));
+        }
         for (j, target) in tg.iter().enumerate() {
             for (w, want) in [None, Some(vec!["n4"]), Some(vec!["n6"]), Some(vec!["n4", "n6"]), Some(vec!["n6", "n4"]), Some(vec!["n6", "n6"]), Some(vec!["n4", "n4"]), Some(vec!["n4", "zz"]), Some(vec![])].iter().enumerate() {
                 // the less usual want lists on a third of the targets
@@ -157,6 +162,25 @@ pub fn judge(cfg: &Cfg, res: &RunResult) -> (Vec<(String, String)>, u64, Vec<usi
                     let missing: Vec<_> = listed.difference(&dumped).take(3).collect();
                     v.push(("replies-do-not-offer-live-contacts".to_string(), format!("instant #{k}: load_contacts lists {} good + {} questionable contacts, the 161 find_node probes of the same millisecond offer {} nodes; never offered: {:?}", good.len(), questionable.len(), dumped.len(), missing)));
                 }
+            }
+        }
+        // replies to the table member that asked at this instant
+        let c0 = c_addr(0, cfg.v6);
+        let id0 = if cfg.twins { c_id(0) } else { c_id(0) };
+        let instants = if cfg.all_silent { INSTANTS_ALL_SILENT } else { INSTANTS };
+        for d in res.wire.iter().filter(|d| d.src == n && d.dst == c0 && d.sent_ms >= instants[k] && d.sent_ms <= instants[k] + 100) {
+            let p = krpc::parse(&d.bytes);
+            if p.y != 'r' || !(p.tid.starts_with(b"f") || p.tid.starts_with(b"g")) || p.tid.len() != 4 {
+                continue;
+            }
+            checked += 1;
+            let list = if cfg.v6 { &p.nodes6 } else { &p.nodes };
+            let fam_total = table.iter().filter(|(_, a)| a.is_ipv6() == cfg.v6).count();
+            if list.len() != fam_total.min(8) {
+                v.push(("reply-to-a-table-member-node-count-not-min-8-n".to_string(), format!("instant #{k}: the reply to {c0} (itself a live node of the table) lists {} nodes, the table holds {} of that family", list.len(), fam_total)));
+            }
+            if p.tid.starts_with(b"f") && table.contains(&(id0, c0)) && !list.contains(&(id0, c0)) {
+                v.push(("closer-node-missing-from-reply".to_string(), format!("instant #{k}: {c0} asks for its own id; it is a live node of the table (the closest one to that target) but is not listed")));
             }
         }
         let qprefix = format!("q{k}-");
